@@ -1,11 +1,140 @@
-(* C16 property theorems only: each closed by `exact <lemma>` with Print Assumptions beneath. *)
+(* C16 property theorems only: each closed by `exact <lemma>` with Print Assumptions beneath.
+
+   Vocabulary.  Model.v: executable model of cutting.py (`cut0` = _build_cut_edges_tree, `prune`/`cut_edges_of` =
+   _prune_edge_tree after it, `rebuild` = _build_mesh_with_cuts, `direct_face`, `interior_edges`, `boundary_edges`);
+   Gen.v: corner numbering, glue test, union plumbing, leaf tests GENERATED from cutting.py (the model uses them);
+   Checkers.v: boolean checkers used as hypotheses (`tri_ok_b`: triangles with distinct vertices, `table_ok_b`: every
+   face edge is in the edge table, `primal_connected_b`, `forest_cert_b ... T rk`: T is a forest of the dual graph
+   (rank certificate), `dual_spanning_df_b`: the pairs of faces across the edges of T link all faces,
+   `closed_set_b`: no edge of the set ends in a leaf of the set);
+   Proofs_*: `corner faces f i` = number of the i-th corner of face f, `cvert faces c` = its input vertex,
+   `out_corner r f i` = output_mesh.faces[f][i], `ref_vertex r k`, `out_src r` = the input vertex whose position
+   output vertex k carries, `glued` = "the two corners of one end of an uncut interior edge in its two faces",
+   `eqcl` = equivalence closure, `adj/conn/touched` = adjacency / walks / "is an end of an edge" in a set of edge ids,
+   `steps` = sequence of removals of non-singular leaves, `noleaf`, `closed_set`.
+   The dual tree T (step 2 of the cutter, float Dijkstra) is an input of the model: hypotheses on it are checked on
+   every run on what mouette returned.                                                                            *)
 From Coq Require Import ZArith List Bool.
 Import ListNotations.
 Require Import MV.Lib.Base MV.C16.Gen MV.C16.Model MV.C16.Checkers.
-Require Import MV.C16.Proofs_Base.
+Require Import MV.C16.Proofs_Base MV.C16.Proofs_UF MV.C16.Proofs_Struct MV.C16.Proofs_Rebuild.
+Require Import MV.C16.Proofs_Prune MV.C16.Proofs_Cotree MV.C16.Proofs_Top MV.C16.Proofs_Examples.
 Open Scope Z_scope.
 
+(* 1. FULL, for ANY face list, edge table and cut set: the rebuilt mesh has the input faces in the same order with
+      the same arity, ref_vertex maps every output corner to the input corner (face by face), every output vertex
+      carries the position of its ref_vertex, all writes to ref_vertex agree, output indices are in range, every
+      output vertex is used, ref_vertex is onto the vertices of the faces; two corners are identified iff a chain
+      of `glued` pairs links them, such chains stay around one original vertex, and no uncut interior edge is
+      opened ("only cut edges are opened").  Non-vacuity: grid_disk / grid_opened in Proofs_Examples. *)
+Theorem C16_rebuild : forall (faces : list face) (edges : list (Z * Z)) (cut : list Z),
+  let r := rebuild faces edges cut in
+  map (map (ref_vertex r)) (out_faces r) = map (map Some) faces /\
+  map Some (out_src r) = map (ref_vertex r) (zrange (out_n r)) /\
+  (forall u v, In (u, v) (out_ref r) -> ref_vertex r u = Some v) /\
+  (forall f i, valid_corner faces f i -> 0 <= out_corner r f i < out_n r) /\
+  (forall k, 0 <= k < out_n r -> exists f i, valid_corner faces f i /\ out_corner r f i = k) /\
+  (forall v, In v (concat faces) -> exists k, 0 <= k < out_n r /\ ref_vertex r k = Some v) /\
+  (forall f i g j, valid_corner faces f i -> valid_corner faces g j ->
+     (out_corner r f i = out_corner r g j <-> eqcl (glued faces edges cut) (corner faces f i) (corner faces g j))) /\
+  (forall x y, eqcl (glued faces edges cut) x y -> 0 <= x < ncorners faces -> cvert faces x = cvert faces y) /\
+  (forall e a b f1 i1 j1 f2 i2 j2, 0 <= e < zlen edges -> ends edges e = (a, b) -> ~ In e cut ->
+     direct_face faces a b = Some (f1, i1, j1) -> direct_face faces b a = Some (f2, i2, j2) ->
+     out_corner r f1 i1 = out_corner r f2 j2 /\ out_corner r f1 j1 = out_corner r f2 i2).
+Proof. exact rebuild_full. Qed.
+Print Assumptions C16_rebuild.
+
+(* 1b. what `glued` means, in terms of the input mesh: x and y are the corners, in the two faces f1, f2 on either
+       side of an uncut edge e = (a,b) of the table, of the same end of e. *)
+Theorem C16_rebuild_glued_meaning : forall faces edges cut x y, glued faces edges cut x y ->
+  0 <= x < ncorners faces /\ 0 <= y < ncorners faces /\ cvert faces x = cvert faces y.
+Proof. exact glued_same_vertex. Qed.
+Print Assumptions C16_rebuild_glued_meaning.
+
+(* 2. FULL: _build_cut_edges_tree is the complement of the dual tree. *)
 Theorem C16_cut0_is_complement : forall edges ev e,
   In e (cut0 edges ev) <-> (0 <= e < zlen edges) /\ ~ In e ev.
 Proof. exact cut0_spec. Qed.
 Print Assumptions C16_cut0_is_complement.
+
+(* 3. FULL, pruning invariant, for ANY edge table, singular set and starting set: the queue loop ends within its
+      fuel; what it did is a sequence of removals of NON-SINGULAR leaves; no non-singular leaf is left (vertices
+      0..nv-1); nothing is added; every subset without non-singular leaves survives (border cycles, paths between
+      singular vertices); vertices that are singular or still ends of remaining edges stay connected.
+      Non-vacuity: grid_pruned_nontrivial. *)
+Theorem C16_pruning : forall (edges : list (Z * Z)) (sing : Z -> bool) (nv : Z) (cut0 : list Z),
+  exists cut, prune edges nv sing cut0 = Some cut /\
+    steps edges sing cut0 cut /\ noleaf edges sing nv cut /\
+    (forall e, In e cut -> In e cut0) /\
+    (forall S, closed_set edges sing S -> (forall e, In e S -> In e cut0) -> forall e, In e S -> In e cut) /\
+    (forall u v, (sing u = true \/ touched edges cut u) -> (sing v = true \/ touched edges cut v) ->
+                 conn edges cut0 u v -> conn edges cut u v).
+Proof. exact pruning_full. Qed.
+Print Assumptions C16_pruning.
+
+(* 4. FULL (tree-cotree + pruning): for a triangulated surface whose edge table is complete and connected, ANY
+      forest T of the dual graph made of interior edges (rank certificate rk), and a border without leaves:
+      run()'s cut_edges is defined, is a subset of the complement of T, contains every border edge and is a
+      connected graph.  Non-vacuity: grid_hyps, grid_cut. *)
+Theorem C16_cut_graph_connected_contains_border : forall faces edges nv singus T rk,
+  cut_hyps faces edges T rk ->
+  exists cut, cut_edges_of edges nv singus T = Some cut /\
+    (forall e, In e cut -> In e (cut0 edges T)) /\
+    (forall e, In e (boundary_edges faces edges) -> In e cut) /\
+    (forall u v, touched edges cut u -> touched edges cut v -> conn edges cut u v).
+Proof. exact cut_graph_border_connected. Qed.
+Print Assumptions C16_cut_graph_connected_contains_border.
+
+(* 5. PARTIAL.  Full statement: every singular vertex has a copy on the border of the cut mesh (unless the surface
+      is a closed sphere with fewer than two singular vertices).  Proved: under the hypotheses of 4, a singular
+      vertex s of the mesh is an END OF A CUT EDGE as soon as another vertex w of the mesh is singular or an end of
+      a cut edge (i.e. as soon as the cut graph is not empty or there are two singular vertices).  Missing: "an
+      end of an opened cut edge has a copy on the border of the rebuilt mesh" needs the ring structure of the
+      corners around a vertex; it is checked on every run (`singus_on_border_b`). *)
+Theorem C16_singularities_on_border_partial : forall faces edges nv singus T rk,
+  cut_hyps faces edges T rk ->
+  exists cut, cut_edges_of edges nv singus T = Some cut /\
+    forall s w, In s singus -> s <> w ->
+      touched edges (zrange (zlen edges)) s -> touched edges (zrange (zlen edges)) w ->
+      (In w singus \/ touched edges cut w) -> touched edges cut s.
+Proof. exact cut_graph_singularities. Qed.
+Print Assumptions C16_singularities_on_border_partial.
+
+(* 6. FULL: if the pairs of faces across the edges of T link all faces (which a spanning tree of the dual graph
+      does) and no edge of T is cut, any two faces of the rebuilt mesh are linked by a chain of faces sharing an
+      edge (two distinct corners with the same output vertices).  Non-vacuity: grid_spanning. *)
+Theorem C16_connected : forall faces edges cut T,
+  tri_ok_b faces = true -> dual_spanning_df_b faces edges T = true ->
+  (forall e, In e T -> 0 <= e < zlen edges /\ ~ In e cut) ->
+  forall f g, 0 <= f < zlen faces -> 0 <= g < zlen faces ->
+    eqcl (share_edge faces (rebuild faces edges cut)) f g.
+Proof. exact cut_mesh_connected. Qed.
+Print Assumptions C16_connected.
+
+(* 7. PARTIAL.  Full statement: the cut mesh is a disk (one component: 6; one border loop; V' - E' + F = 1).
+      Proved: the tree-cotree COUNTING IDENTITY that gives Euler characteristic 1 from named counting facts
+      (|T| = F-1; the complement touches every vertex; a leaf removal deletes one edge and one touched vertex;
+      every interior cut edge is doubled; a vertex of the cut graph gets deg copies, deg-1 on the border).
+      Missing: those counting facts about the rebuilt mesh and the single border loop (both need the ring
+      structure of corners around a vertex); `is_disk_b` checks all three disk claims on every run. *)
+Theorem C16_disk_euler_partial : forall V E F Eb nT e0 v0 eG vG V' E' : Z,
+  nT = F - 1 -> e0 = E - nT -> v0 = V -> eG - vG = e0 - v0 ->
+  E' = E + (eG - Eb) -> V' = V + (2 * eG - vG - Eb) ->
+  V' - E' + F = 1.
+Proof. exact euler_identity. Qed.
+Print Assumptions C16_disk_euler_partial.
+
+(* 8. REFUTED: "for every closed sphere with at least two singular vertices the cut mesh is a disk with the
+      singular vertices on its border".  Witness (what mouette computes): the tetrahedron with singular vertices
+      0 and 1; all hypotheses of 4 and 6 hold, cut_edges is the single edge (0,1), the rebuilt mesh IS the input
+      (4 vertices, closed, Euler characteristic 2), not a disk, and no singular vertex is on a border.
+      Known finding `closed-sphere/two-adjacent-singularities/single-edge-slit`, replayed on every run. *)
+Theorem C16_disk_refuted : exists faces edges nv singus T rk,
+  cut_hyps faces edges T rk /\ dual_spanning_df_b faces edges T = true /\
+  closed_b faces = true /\ euler faces = 2 /\ oriented_b faces = true /\ zlen (dedup singus) = 2 /\
+  exists cut, cut_edges_of edges nv singus T = Some cut /\
+    let r := rebuild faces edges cut in
+    is_disk_b (out_faces r) = false /\ euler (out_faces r) = 2 /\ closed_b (out_faces r) = true /\
+    singus_on_border_b r singus = false.
+Proof. exact disk_refuted. Qed.
+Print Assumptions C16_disk_refuted.
